@@ -392,24 +392,56 @@ def replay_kernel(p):
             if abs(dst[i] - sc(fin)) > 1e-6:
                 return True, f"departure {list(d0[i * n:(i + 1) * n])}: reported {dst[i]} but final ranking {list(fin)} scores {sc(fin)}"
         return False, "reported scores equal the true scores of the final rankings"
-    # search / step level: run the whole local search from r and test the result
-    r0 = np.array(p["r"], dtype=np.int32)
-    r = r0.copy()
-    delta = Bm._improve_one_ranking(r, cost, n)
-    ids = sorted(set(int(x) for x in r))
-    if ids != list(range(len(ids))):
-        return True, f"local search from {list(r0)} ends in non-dense {list(r)}"
-    if abs((sc(r) - sc(r0)) - delta) > 1e-6:
-        return True, f"local search from {list(r0)}: returned delta {delta} but true change {sc(r) - sc(r0)}"
-    mxb = max(ids)
-    for e in range(n):
-        for b in range(mxb + 1):
-            if b != r[e]:
-                r2 = r.copy(); r2[e] = b
-                if sc(r2) - sc(r) < -0.001 - 1e-9:
-                    return True, f"local search from {list(r0)} stops at {list(r)} although moving {e} to bucket {b} gains {sc(r2) - sc(r)}"
-        for i in range(mxb + 2):
-            r2 = [2 * int(x) + 1 for x in r]; r2[e] = 2 * i
-            if sc(r2) - sc(r) < -0.001 - 1e-9:
-                return True, f"local search from {list(r0)} stops at {list(r)} although a new bucket for {e} at {i} gains {sc(r2) - sc(r)}"
-    return False, f"local search from {list(r0)} ends in a local optimum {list(r)} with exact bookkeeping"
+    # search / step level: run the whole local search from the counterexample state and test the result; if that particular
+    # state does not expose the defect end to end (the inductive step is violated, but the consequence needs a longer run),
+    # a directed search over random dense states and mirror-consistent tables (n = 3..7) looks for an end-to-end witness.
+    # The alarm is only raised for a witness that fails against the real jitted kernels.
+    def whole(r0, cost_, n_):
+        tab_ = cost_.reshape(n_, n_, 3)
+
+        def sc_(rr):
+            return sum(tab_[x][y][0 if rr[x] < rr[y] else 1 if rr[x] > rr[y] else 2] for x in range(n_) for y in range(x + 1, n_))
+        r_ = r0.copy()
+        delta_ = Bm._improve_one_ranking(r_, cost_, n_)
+        ids_ = sorted(set(int(x) for x in r_))
+        if ids_ != list(range(len(ids_))):
+            return f"local search from {list(r0)} ends in non-dense {list(r_)}"
+        if abs((sc_(r_) - sc_(r0)) - delta_) > 1e-6:
+            return f"local search from {list(r0)}: returned delta {delta_} but true change {sc_(r_) - sc_(r0)}"
+        mxb_ = max(ids_)
+        base_ = sc_(r_)
+        for e in range(n_):
+            for b in range(mxb_ + 1):
+                if b != r_[e]:
+                    r2 = r_.copy(); r2[e] = b
+                    if sc_(r2) - base_ < -0.001 - 1e-9:
+                        return f"local search from {[int(x) for x in r0]} stops at {[int(x) for x in r_]} although moving {e} to bucket {b} gains {sc_(r2) - base_}"
+            for i in range(mxb_ + 2):
+                r2 = [2 * int(x) + 1 for x in r_]; r2[e] = 2 * i
+                if sc_(r2) - base_ < -0.001 - 1e-9:
+                    return f"local search from {[int(x) for x in r0]} stops at {[int(x) for x in r_]} although a new bucket for {e} at {i} gains {sc_(r2) - base_}"
+        return None
+    msg = whole(np.array(p["r"], dtype=np.int32), cost, n)
+    if msg:
+        return True, msg
+    import random, time
+    rnd = random.Random(12345)
+    t0 = time.time()
+    trials = 0
+    while time.time() - t0 < 40:
+        trials += 1
+        nn = rnd.randint(3, 7)
+        k = rnd.randint(1, nn)
+        lv = [rnd.randrange(k) for _ in range(nn)]
+        ids = sorted(set(lv))
+        r0 = np.array([ids.index(x) for x in lv], dtype=np.int32)
+        tab = np.zeros((nn, nn, 3))
+        for x in range(nn):
+            for y in range(x + 1, nn):
+                a, b, c = (rnd.choice([0, 0.5, 1, 1.5, 2, 3]) for _ in range(3))
+                tab[x][y] = (a, b, c)
+                tab[y][x] = (b, a, c)
+        msg = whole(r0, tab.flatten(), nn)
+        if msg:
+            return True, f"directed search ({trials} random states): {msg}; table {tab.flatten().tolist()}"
+    return False, f"local search from {p['r']} ends in a local optimum with exact bookkeeping; directed search over {trials} random states found no end-to-end witness"
